@@ -5,6 +5,7 @@
 //	       independent Go linearizability checker, and written to cases.v for the proved-sound Coq lin_check.
 //	seq  : single-goroutine lockstep scripts, result of every call compared with the thread-program model.
 //	stress: longer free-running histories judged by the Go checker only (volume).
+//	reent-seq / reent-conc: Iterate consumers that call back into the store (reent.go).
 //
 // Every goroutine operation runs under a watchdog: a history that does not finish in time is reported as a hang.
 package main
@@ -86,6 +87,8 @@ type call struct {
 	Keys bool    `json:"keys,omitempty"`
 	Lim  int     `json:"lim,omitempty"`
 	Ws   []write `json:"ws,omitempty"`
+	// iter only: Cb != nil makes the consumer re-enter the store; Cb[j] = the calls it performs inside its j-th invocation
+	Cb [][]call `json:"cb,omitempty"`
 }
 
 type kv struct{ K, V string }
@@ -147,6 +150,10 @@ func (c call) coq() string {
 	case "clear":
 		return vx.App("CClear", v)
 	case "iter":
+		if c.Cb != nil {
+			return vx.App("CIterRe", v, bs(c.K), vx.Bool(c.Fwd), vx.Bool(c.Keys), vx.Nat(c.Lim),
+				vx.ListOf(c.Cb, func(cs []call) string { return vx.ListOf(cs, call.coq) }))
+		}
 		return vx.App("CIter", v, bs(c.K), vx.Bool(c.Fwd), vx.Bool(c.Keys), vx.Nat(c.Lim))
 	case "flush":
 		return vx.App("CFlush", v)
@@ -286,6 +293,7 @@ type actor struct {
 	spies   []*spy
 	batch   kvstore.BatchedMutations
 	fails   []string // composition-oracle failures
+	reentrant
 }
 
 func newActor(w *world) *actor {
@@ -407,11 +415,13 @@ func (a *actor) exec(c call) (ret, []opres) {
 		if c.Keys {
 			err = h.IterateKeys([]byte(c.K), func(k kvstore.Key) bool {
 				l = append(l, kv{string(k), ""})
+				a.callback(c, len(l)-1)
 				return len(l) < c.Lim
 			}, dir)
 		} else {
 			err = h.Iterate([]byte(c.K), func(k kvstore.Key, v kvstore.Value) bool {
 				l = append(l, kv{string(k), string(v)})
+				a.callback(c, len(l)-1)
 				return len(l) < c.Lim
 			}, dir)
 		}
@@ -614,8 +624,12 @@ func (g *gen) value(t int) string {
 
 // one random call for goroutine t; withClose: Close allowed
 func (g *gen) call(t int, pClose int) []call {
+	return g.callOn(t, g.r.Intn(len(views)), pClose)
+}
+
+// the same for a given view handle
+func (g *gen) callOn(t int, v int, pClose int) []call {
 	r := g.r
-	v := r.Intn(len(views))
 	realm := views[v].Realm
 	keys := relKeys(realm, universe)
 	pfx := relKeys(realm, prefixes)
@@ -825,11 +839,15 @@ func main() {
 	nstress := fs.Int("nstress", 1500, "longer free-running histories judged in Go only")
 	seqLen := fs.Int("seqlen", 30, "")
 	nclose := fs.Int("nclose", 20000, "directed close-race mini histories (60 of them also to Coq)")
+	nreseq := fs.Int("nreseq", 300, "sequential scripts with re-entrant Iterate consumers (half of them also to Coq)")
+	nreconc := fs.Int("nreconc", 300, "re-entrant consumer + writer arriving inside a callback (60 of them also to Coq)")
 	fs.Parse(os.Args[2:])
 
 	rng := vx.NewRng(*seed)
 	st := vx.NewStats("lin/stress history: non-trivial iff two records of different goroutines overlap in time and one of them is a write/Close; " +
-		"seq script: non-trivial iff some read returned a value/entry written earlier in the script")
+		"seq script: non-trivial iff some read returned a value/entry written earlier in the script; " +
+		"reent-seq: non-trivial iff a consumer executed at least one nested store call; reent-conc: non-trivial iff the consumer reached the pause, " +
+		"executed nested calls and the writer's call lies inside the Iterate's interval")
 	cf := &vx.CasesFile{Header: coqHeader(), Type: "case",
 		Footer: "Definition M := Eval vm_compute in mismatches cases.\nPrint M."}
 	addCase := func(term string, desc any) {
@@ -846,6 +864,10 @@ func main() {
 		addCase("CNeg "+vx.ListOf(d, rec.coq), map[string]any{"mode": "neg-directed", "history": d})
 		st.Count("mode:neg")
 	}
+
+	// ---- re-entrant consumers (own generator: the streams below stay what they were)
+	runReentSeq(&gen{r: vx.NewRng(*seed ^ 0x52454e54).Fork().Fork()}, *nreseq, *nreseq/2, *seed, st, addCase)
+	runReentConc(&gen{r: vx.NewRng(*seed ^ 0x52454e55).Fork().Fork().Fork()}, *nreconc, 60, *seed, st, addCase)
 
 	// ---- lockstep scripts
 	gs := &gen{r: rng.Fork()}
